@@ -755,7 +755,8 @@ def check(prop, tier, families=None, only_entry=None, verbose=False):
     nq = len(results)
     nok = sum(1 for x in results if x[3].status == 'ok')
     samples = []
-    for (fam, q, bb, r, k) in (results[:3] + [x for x in results if x[3].status != 'ok'][:5]):
+    slow_ = sorted(results, key=lambda x: -x[3].secs)[:3]
+    for (fam, q, bb, r, k) in (results[:3] + slow_ + [x for x in results if x[3].status != 'ok'][:5]):
         samples.append({'family': fam.name, 'entry': q['entry'], 'cfg': bb.cfg, 'ub_build': bb.ub, 'unwind': q.get('unwind', 8), 'unwindset': q.get('unwindset', {}),
                         'solver': r.solver, 'seconds': round(r.secs, 2), 'verdict': r.status, 'properties_in_query': r.nprops,
                         'failed': r.failed[:3], 'inputs': (r.inputs or [])[:32], 'replay': r.replay})
